@@ -569,7 +569,7 @@ func (e *p2pEnv) scoredCase(prop, kind string, chunk uint64) {
 		ps = []sessPeer{{have: 120}, {have: 5}, {have: 5}, {have: 5}}
 	case "realhang":
 		ps = []sessPeer{{have: 120, behs: []string{"silent"}}, {have: 120}}
-		reqTimeout, callTimeout = 300*time.Millisecond, 1200*time.Millisecond
+		reqTimeout, callTimeout = 300*time.Millisecond, 4*time.Second // (the silent peer says nothing for 6 s)
 	}
 	n := len(ps)
 	ids := make([]peer.ID, n)
